@@ -37,16 +37,17 @@ type GenCfg struct {
 	Depth     int // nesting budget for init code
 	// weights of block families
 	WNoise, WStorage, WMem, WCall, WCreate, WExport, WLockup, WSelfdestruct, WLoop, WTerminal int
+	WNest                                                                                     int    // percentage of blocks that are a plain call into another generated contract
 	MemCap                                                                                    uint64 // largest size operand of metered memory operations
 	Excl                                                                                      *Exclusions
 }
 
 // DefaultCfg is the C02 mix; ExportCfg is the C05 mix (biased to value-exporting operations).
 func DefaultCfg() GenCfg {
-	return GenCfg{MaxBlocks: 6, Depth: 2, WNoise: 3, WStorage: 3, WMem: 3, WCall: 8, WCreate: 3, WExport: 5, WLockup: 3, WSelfdestruct: 1, WLoop: 1, WTerminal: 1, MemCap: 1 << 24}
+	return GenCfg{MaxBlocks: 6, Depth: 2, WNoise: 3, WStorage: 3, WMem: 3, WCall: 8, WCreate: 3, WExport: 5, WLockup: 3, WSelfdestruct: 1, WLoop: 1, WTerminal: 1, WNest: 12, MemCap: 1 << 24}
 }
 func ExportCfg() GenCfg {
-	return GenCfg{MaxBlocks: 5, Depth: 2, WNoise: 1, WStorage: 1, WMem: 2, WCall: 5, WCreate: 2, WExport: 12, WLockup: 10, WSelfdestruct: 1, WLoop: 1, WTerminal: 1, MemCap: 1 << 20}
+	return GenCfg{MaxBlocks: 5, Depth: 2, WNoise: 1, WStorage: 1, WMem: 2, WCall: 5, WCreate: 2, WExport: 12, WLockup: 10, WSelfdestruct: 1, WLoop: 1, WTerminal: 1, WNest: 15, MemCap: 1 << 20}
 }
 
 // Hints is what the generator knows about the account whose code it is writing.
@@ -506,6 +507,32 @@ func (g *ProgGen) call(a *Asm, h *Hints) {
 	}
 	a.PushAddr(t.addr)
 	g.gasOperand(a, 0)
+	a.Op(op)
+	g.consumeFlag(a)
+}
+
+// callContract emits a CALL/DELEGATECALL/CALLCODE into another generated contract with all the gas
+// (nesting: the callee's own emissions, failures and self-destructs happen inside an inner frame).
+func (g *ProgGen) callContract(a *Asm, h *Hints) {
+	u := U()
+	ops := []vm.OpCode{vm.CALL, vm.DELEGATECALL, vm.CALLCODE, vm.STATICCALL}
+	op := ops[g.weighted("ccop", 8, 2, 1, 1)]
+	t := u.Contracts[g.intn("cct", len(u.Contracts))]
+	g.kind(op.String() + ">contract!")
+	a.Push(0).Push(0).Push(uint64(g.intn("ccin", 2))).Push(0)
+	if op == vm.CALL || op == vm.CALLCODE {
+		if g.flip("ccval", 25) {
+			a.Push(1000)
+		} else {
+			a.Push(0)
+		}
+	}
+	a.PushAddr(t)
+	if g.flip("ccgas", 80) {
+		a.Op(vm.GAS)
+	} else {
+		a.Push(uint64(50000 + 50000*g.intn("ccg", 8)))
+	}
 	a.Op(op)
 	g.consumeFlag(a)
 }
@@ -994,6 +1021,10 @@ func (g *ProgGen) block(a *Asm, h *Hints, depth int, inLoop bool) {
 	wETX := c.WExport * 2
 	wConv := c.WExport
 	wExt := (c.WExport + 3) / 4 // a CALL to an out-of-scope address always dies in the gas function
+	if !inLoop && g.weighted("nest", 100-c.WNest, c.WNest) == 1 {
+		g.callContract(a, h)
+		return
+	}
 	switch g.weighted("block", c.WNoise, c.WStorage, c.WMem, c.WCall, wCreate, wETX, wConv, wExt, c.WLockup, wSd, wLoop, wTerm) {
 	case 0:
 		g.noise(a, h)
